@@ -129,6 +129,14 @@ func c08Parse(p *chk.Prog, r *chk.Report) {
 				rs, ok := nd.(*ast.ReturnStmt)
 				return ok && len(rs.Results) == 2 && !f.IsNilLit(rs.Results[1])
 			}).Found
+			if !okOrder {
+				// the refusal handed over through the error variable of an expanded helper: no success return can be
+				// reached from the edge with the values set on the way
+				okOrder = !g.FeasiblyReaches(e, func(nd ast.Node) bool {
+					rs, ok := nd.(*ast.ReturnStmt)
+					return ok && len(rs.Results) == 2 && f.IsNilLit(rs.Results[1])
+				})
+			}
 		}
 		x.Check("ParseCIDR:start-after-end-rejected", f.Pos(), okOrder, "", "a range whose start lies after its end is not rejected")
 	}
